@@ -448,7 +448,7 @@ def run_case(E, case, prop, with_count=False):
         else:
             r["verdict"] = "error"
             r["detail"] = "vacuous harness: preconditions unsatisfiable"
-    if dec.verdict == "sat":
+    if dec.verdict == "sat" and not any(k_ == "bounds" for k_, w_ in dec.failed_obligations):
         r["candidates"].append({"signature": f"{prop}:" + signature_of(case, dec.which), "case": case,
                                 "inputs": jsonable(dec.model), "kind": "property", "labels": dec.which[:6]})
     if dec.failed_obligations:
